@@ -386,8 +386,10 @@ static void list_of(dr_dag_node * p, dr_dag_node * a, int m) {
 static void leaf(dr_dag_node * p, dr_dag_node_kind_t k) {
   *p = fresh_node(); p->info.kind = k; p->info.cur_node_count = 1; p->info.min_node_count = 1; p->info.worker = 0;
 }
+static int g_one_worker_mask = -1;   /* -1: nondeterministic; else bit 0: S, bit 1: CT[0], bit 2: CH[1] ran on one worker */
 static void inner(dr_dag_node * p, dr_dag_node_kind_t k, long cur, long min_uncollapsed) {
-  _Bool one_worker = nondet_bool();           /* executed by one worker: collapsable, min_node_count == 1 */
+  /* executed by one worker: collapsable, min_node_count == 1 */
+  _Bool one_worker = g_one_worker_mask < 0 ? nondet_bool() : ((g_one_worker_mask >> (p == &S ? 0 : p == &CT[0] ? 1 : 2)) & 1);
   p->info.kind = k; p->info.cur_node_count = cur; p->info.worker = one_worker ? 0 : -1;
   p->info.min_node_count = one_worker ? 1 : min_uncollapsed;
 }
@@ -443,11 +445,11 @@ void collapse_any_contract(dr_dag_node * s, dr_dag_node_freelist * fl)
   __CPROVER_ensures(s->info.cur_node_count == 1)
   __CPROVER_ensures(s->subgraphs->n == 0 && s->subgraphs->head == 0 && s->subgraphs->tail == 0);
 
-void h_prune(void) {
+static void prune_case(long budget, int mask, long expect) {
+  g_one_worker_mask = mask;
   setup_gs();
   GS.opts.chk_level = 0;                       /* the recursive debug walkers dr_check_*_node_count are not evaluated */
   build_dag10();
-  long budget = nondet_long(); __CPROVER_assume(-2 <= budget && budget <= 12);
   dr_clock_t t1 = g_w->info.t_1, tinf = g_w->info.t_inf;
   long nc = g_w->info.logical_node_counts[g_k < 4 ? g_k : 0], ec = g_w->info.logical_edge_counts[g_k];
   long r = dr_prune_nodes_norec(&PS, &S, budget, &FL);
@@ -455,7 +457,29 @@ void h_prune(void) {
   __CPROVER_assert(g_w->info.logical_node_counts[g_k < 4 ? g_k : 0] == nc && g_w->info.logical_edge_counts[g_k] == ec,
                    "prune: interval and edge counts of every node are unchanged");
   __CPROVER_assert(PS.n == 0, "prune: its stack is empty again");
-  __CPROVER_assert(1 <= r && r <= 10, "prune: the materialised node count stays between 1 and the original 10");
+  __CPROVER_assert(r == expect && r == S.info.cur_node_count, "prune: returns the number of nodes left materialised (scenario covers the intended contraction)");
+}
+
+/* concrete scenarios (budget, which inner nodes ran on a single worker); summaries and the witness stay arbitrary.
+   CBMC's symbolic execution does not terminate in useful time when budget / worker sets are symbolic (the stack depth
+   becomes symbolic and every push re-allocates symbolically). */
+#ifndef PRUNE_SCEN
+#define PRUNE_SCEN 1
+#endif
+void h_prune(void) {        /* one scenario per job: a contract is enforced on a single top-level call */
+#if   PRUNE_SCEN == 1
+  prune_case(12, 7, 10);  /* within budget: nothing to do */
+#elif PRUNE_SCEN == 2
+  prune_case(2, 7, 1);    /* far over budget, root collapsable: the whole DAG becomes one node */
+#elif PRUNE_SCEN == 3
+  prune_case(6, 6, 6);    /* root spans workers: recurse; the created task and the inner section are collapsed */
+#elif PRUNE_SCEN == 4
+  prune_case(8, 2, 8);    /* only the created task is collapsable */
+#elif PRUNE_SCEN == 5
+  prune_case(5, 0, 10);   /* nothing collapsable: already minimum */
+#else
+  prune_case(7, 4, 8);    /* only the inner section is collapsable */
+#endif
   VERIF_CANARY();
 }
 #endif
